@@ -154,6 +154,21 @@ def _replay_unit_crash(mod, unit):
     return [(f["sig"], f["msg"]) for f in r.get("failures", []) if f["kind"] == "unit-crash"]
 
 
+def _replay_entry(kc):
+    kind, case = kc
+    if kind == "unit-crash":
+        return _replay_unit_crash(_MODULE, case)
+    return _MODULE.replay(kind, case)
+
+
+def replay_isolated(kind, case):
+    """Re-executes one failing case in a freshly forked child of the (still pristine) runner process, so that hidden
+    state left behind by an earlier replay (caches, module globals) cannot mask or fake a failure."""
+    ctx = mp.get_context("fork")
+    with ctx.Pool(1) as pool:
+        return pool.apply(_replay_entry, ((kind, case),))
+
+
 def load_findings():
     path = os.path.join(ROOT, "known_findings.json")
     if not os.path.exists(path):
@@ -247,7 +262,7 @@ def main(argv=None):
                 with open(os.path.join(regdir, fn)) as fh:
                     rec = json.load(fh)
                 nreg += 1
-                for sig, msg in mod.replay(rec["kind"], rec["case"]):
+                for sig, msg in replay_isolated(rec["kind"], rec["case"]):
                     failures.append({"kind": rec["kind"], "case": rec["case"], "sig": sig, "msg": msg})
                     agg["nfail"] += 1
     extra["regression_records_replayed"] = nreg
@@ -280,7 +295,7 @@ def main(argv=None):
             continue
         if len(confirmed) >= 4 * MAX_REPORTED:
             continue
-        again = _replay_unit_crash(mod, f["case"]) if f["kind"] == "unit-crash" else mod.replay(f["kind"], f["case"])
+        again = replay_isolated(f["kind"], f["case"])
         if again:
             confirmed.append((key, f))
         else:
